@@ -6,9 +6,9 @@
    internal/pkg/model/archive/NonDominanceModelArchive.go it calls (AttemptToArchiveState,
    newModelStateCannotBeArchived, ForceModelStateIntoArchive, SelectRandomModel, IsNonDominant).
 
-   A solution is an [entry]: the action set (list of booleans, as compressed by ModelCompressor) and
-   its decision-variable vector in sorted-key order (exact rationals, as in C17's model, whose
-   [dominates] is reused).  Modelling assumption (discharged by C01 for the catchment model): the
+   A solution is an [NdArchive.entry]: the action set (list of booleans, as compressed by
+   ModelCompressor) and its decision-variable vector in sorted-key order (exact rationals, as in C17's
+   model).  The archive operations are NOT transcribed again here: they are C05's (NdArchive.v).  Modelling assumption (discharged by C01 for the catchment model): the
    vector of a model is a function of its action set, so synchronising / decompressing the current
    model to a solution's action set gives it that solution's vector.
 
@@ -17,103 +17,18 @@
    pick.  Go panics (length-mismatched vectors in Dominates, failed assertion in selectRandomIndex,
    "Dominance detected ...") are [Panic].  No proofs in this file. *)
 From Coq Require Import List ZArith NArith QArith Bool Floats.
-From Crem Require Import Base.Res Dominance SuppRtbFloat.
+From Crem Require Import Base.Res Dominance NdArchive SuppRtbFloat.
 Import ListNotations.
 
-Record entry := mk_entry { e_vec : list Q; e_acts : list bool }.
+(* The archive is C05's model NdArchive.v -- the transcription of NonDominanceModelArchive.go that is tied
+   to the real archive by C05's own correspondence check and carries the invariant theorems
+   (NdArchiveProofs.v).  [entry] = (objective vector, action set); [attempt] = AttemptToArchiveState,
+   [force] = ForceModelStateIntoArchive, [is_non_dominant] = IsNonDominant (as written: the inner loop
+   never looks at the last entry), [sres] = archive.StorageResult in iota order. *)
+Notation mk_entry := mkE (only parsing).
+Notation verdict := sres (only parsing).
 
-Fixpoint acts_eqb (a b : list bool) : bool :=
-  match a, b with
-  | [], [] => true
-  | x :: a', y :: b' => Bool.eqb x y && acts_eqb a' b'
-  | _, _ => false
-  end.
-
-(* archive.StorageResult, in iota order *)
-Inductive verdict :=
-| StoredReplacingDominatedEntries
-| StoredWithNoDominanceDetected
-| RejectedWithStoredEntryDominanceDetected
-| RejectedWithDuplicateEntryDetected
-| CanBeStored
-| StoredForcingDominatingStateRemoval.
-
-Definition verdict_eqb (a b : verdict) : bool :=
-  match a, b with
-  | StoredReplacingDominatedEntries, StoredReplacingDominatedEntries
-  | StoredWithNoDominanceDetected, StoredWithNoDominanceDetected
-  | RejectedWithStoredEntryDominanceDetected, RejectedWithStoredEntryDominanceDetected
-  | RejectedWithDuplicateEntryDetected, RejectedWithDuplicateEntryDetected
-  | CanBeStored, CanBeStored
-  | StoredForcingDominatingStateRemoval, StoredForcingDominatingStateRemoval => true
-  | _, _ => false
-  end.
-
-(* newModelStateCannotBeArchived: first match in archive order; dominance is tested before duplication *)
-Fixpoint cannot_be_archived (a : list entry) (c : entry) : res verdict :=
-  match a with
-  | [] => Ok CanBeStored
-  | x :: a' =>
-      do d <- dominates (e_vec x) (e_vec c);
-      if d then Ok RejectedWithStoredEntryDominanceDetected
-      else if acts_eqb (e_acts x) (e_acts c) then Ok RejectedWithDuplicateEntryDetected
-      else cannot_be_archived a' c
-  end.
-
-(* the loop of AttemptToArchiveState: (some entry was dominated by c?, entries not dominated by c) *)
-Fixpoint split_dominated (c : entry) (a : list entry) : res (bool * list entry) :=
-  match a with
-  | [] => Ok (false, [])
-  | x :: a' =>
-      do d <- dominates (e_vec c) (e_vec x);
-      do r <- split_dominated c a';
-      if d then Ok (true, snd r) else Ok (fst r, x :: snd r)
-  end.
-
-Definition attempt (a : list entry) (c : entry) : res (verdict * list entry) :=
-  do v <- cannot_be_archived a c;
-  match v with
-  | CanBeStored =>
-      do r <- split_dominated c a;
-      if fst r then Ok (StoredReplacingDominatedEntries, snd r ++ [c])
-      else Ok (StoredWithNoDominanceDetected, a ++ [c])
-  | _ => Ok (v, a)
-  end.
-
-(* ForceModelStateIntoArchive: drop every entry that dominates c, append c *)
-Fixpoint drop_dominating (c : entry) (a : list entry) : res (list entry) :=
-  match a with
-  | [] => Ok []
-  | x :: a' =>
-      do d <- dominates (e_vec x) (e_vec c);
-      do r <- drop_dominating c a';
-      if d then Ok r else Ok (x :: r)
-  end.
-
-Definition force (a : list entry) (c : entry) : res (list entry) :=
-  do r <- drop_dominating c a; Ok (r ++ [c]).
-
-(* IsNonDominant, as written: the inner loop stops at len-2, i.e. never looks at the last entry *)
-Fixpoint any_dominance_with (x : entry) (ys : list entry) : res bool :=
-  match ys with
-  | [] => Ok false
-  | y :: ys' =>
-      do d <- dominance_present (e_vec x) (e_vec y);
-      if d then Ok true else any_dominance_with x ys'
-  end.
-
-Fixpoint pairs_dominance (a : list entry) : res bool :=
-  match a with
-  | [] => Ok false
-  | x :: a' =>
-      do d <- any_dominance_with x a';
-      if d then Ok true else pairs_dominance a'
-  end.
-
-(* the scan order of the Go loops is (i, j) lexicographic over j in i+1 .. len-2: the pairs among all
-   entries but the last, in the same order as [pairs_dominance] on [removelast a] *)
-Definition is_non_dominant (a : list entry) : res bool :=
-  res_map negb (pairs_dominance (removelast a)).
+Definition verdict_eqb (a b : verdict) : bool := Nat.eqb (sres_code a) (sres_code b).
 
 (* ---- explorer ---- *)
 
@@ -165,6 +80,17 @@ Definition change_desirable (prev : bool) (v : verdict) : bool :=
   | _ => prev
   end.
 
+(* the same switch as data, for the source-level tie (gen/Facts06.v, regenerated from the Go source) *)
+Definition all_verdicts : list verdict :=
+  [StoredReplacingDominatedEntries; StoredWithNoDominanceDetected; RejectedWithStoredEntryDominanceDetected;
+   RejectedWithDuplicateEntryDetected; CanBeStored; StoredForcingDominatingStateRemoval].
+Definition desirable_cases : list nat :=
+  map sres_code (filter (fun v => change_desirable false v) all_verdicts).
+Definition undesirable_cases : list nat :=
+  map sres_code (filter (fun v => negb (change_desirable true v)) all_verdicts).
+Definition sticky_cases : list nat :=
+  map sres_code (filter (fun v => negb (change_desirable false v) && change_desirable true v) all_verdicts).
+
 Inductive decision := AcceptDesirable | AcceptUndesirable | RevertUndesirable.
 
 Definition decision_eqb (a b : decision) : bool :=
@@ -189,10 +115,10 @@ Definition accept_phase (p : params) (s : st) (i : input) : res (verdict * decis
     let pr := accept_prob (p_kind p) (i_es i) in
     if decide pr (unitary (i_draw i)) then
       (* AcceptUndesirableChange: force into the archive; accepted; current := potential *)
-      do a2 <- force a1 (i_cand i);
+      do f <- force a1 (i_cand i);
       Ok (v, AcceptUndesirable,
-          mk_st (i_cand i) a2 (until s) (stepf s) (iter s) (last_rtb s) des true
-                StoredForcingDominatingStateRemoval pr (temp s))
+          mk_st (i_cand i) (snd f) (until s) (stepf s) (iter s) (last_rtb s) des true
+                (fst f) pr (temp s))
     else
       (* RevertLastChange: the potential model is simply ignored *)
       Ok (v, RevertUndesirable,
@@ -342,3 +268,82 @@ Definition sched_inv (p : params) (n : nat) (s : st) : Prop :=
 
 (* all decision-variable vectors have one length d (one model: d decision variables) *)
 Definition wf_len (d : nat) (e : entry) : Prop := length (e_vec e) = d.
+
+(* the archive operation one iteration performs, in C05's operation language (NdArchive.op):
+   OfferForce exactly when the undesirable candidate was accepted, Offer otherwise *)
+Definition op_of (i : input) (o : obs) : op :=
+  if decision_eqb (o_decision o) AcceptUndesirable then OfferForce (i_cand i) else Offer (i_cand i).
+
+Fixpoint ops_of (is : list input) (os : list obs) : list op :=
+  match is, os with
+  | i :: is', o :: os' => op_of i o :: ops_of is' os'
+  | _, _ => []
+  end.
+
+(* ---- what the model assumes about the SOURCE, as data: compared by computation with gen/Facts06.v, which
+   harness/astfacts06 regenerates from the current Go source on every check (gen/obl_C06.v) ---- *)
+From Coq Require Import String.
+Open Scope string_scope.
+
+Inductive pdefault := DInt (z : Z) | DFloat (f : float) | DBool (b : bool) | DOther (text : string).
+
+(* archive.StorageResult in iota order (the Go identifier of [CanBeStored] is unexported) *)
+Definition storage_result_names : list string :=
+  ["StoredReplacingDominatedEntries"; "StoredWithNoDominanceDetected";
+   "RejectedWithStoredEntryDominanceDetected"; "RejectedWithDuplicateEntryDetected";
+   "canBeStored"; "StoredForcingDominatingStateRemoval"].
+
+(* [try_random_change]: Compress(current); generatePotentialModel; Compress(potential) = the candidate;
+   differences candidate - current (what the coolant is given); attempt on the candidate; AcceptOrRevertChange
+   on those differences; ReturnToBaseIfRequired; checkNonDominanceIfRequired; currentIteration++ *)
+Definition try_random_change_order : list string :=
+  ["compress:currentModel"; "call:generatePotentialModel()"; "compress:potentialModel";
+   "differences:compressed(potentialModel)-compressed(currentModel)";
+   "attempt:compressed(potentialModel)";
+   "call:AcceptOrRevertChange(differences(compressed(potentialModel)-compressed(currentModel)))";
+   "call:ReturnToBaseIfRequired(compressed(potentialModel))";
+   "call:checkNonDominanceIfRequired()"; "++:currentIteration"].
+
+(* suppapitnarm/Parameters.go: key, validator, default.  [params_ok] is the validators' range of the three
+   schedule parameters (with NaN excluded and the exact-conversion bound 2^53 added) *)
+Definition default_factor : float := mkf 8556839292003942 (-53).   (* 0.95 *)
+Definition default_isolation : float := mkf 8106479329266893 (-53). (* 0.9 *)
+Definition param_specs : list (string * string * pdefault) :=
+  [("ReturnToBaseAdjustmentFactor", "IsDecimalBetweenZeroAndOne", DFloat default_factor);
+   ("InitialReturnToBaseStep", "IsNonNegativeInteger", DInt 20000);
+   ("MinimumReturnToBaseRate", "IsNonNegativeInteger", DInt 10);
+   ("ReturnToBaseIsolationFraction", "IsDecimalBetweenZeroAndOne", DFloat default_isolation);
+   ("CheckNonDominance", "IsBoolean", DBool false)].
+
+(* where the schedule reads them: step := float64(GetInt64(Initial...)) in SetParameters;
+   GetInt64(Minimum...) and GetFloat64(...Factor) in adjustReturnToBaseRate; GetBoolean(CheckNonDominance) *)
+Definition getter_sites_needed : list (string * string * string) :=
+  [("SetParameters", "GetInt64", "InitialReturnToBaseStep");
+   ("adjustReturnToBaseRate", "GetInt64", "MinimumReturnToBaseRate");
+   ("adjustReturnToBaseRate", "GetFloat64", "ReturnToBaseAdjustmentFactor");
+   ("checkNonDominanceIfRequired", "GetBoolean", "CheckNonDominance")].
+
+Definition pdefault_eqb (a b : pdefault) : bool :=
+  match a, b with
+  | DInt x, DInt y => Z.eqb x y
+  | DFloat x, DFloat y => fsame x y
+  | DBool x, DBool y => Bool.eqb x y
+  | _, _ => false
+  end.
+
+Definition spec_eqb (a b : string * string * pdefault) : bool :=
+  String.eqb (fst (fst a)) (fst (fst b)) && String.eqb (snd (fst a)) (snd (fst b)) && pdefault_eqb (snd a) (snd b).
+
+Definition triple_eqb (a b : string * string * string) : bool :=
+  String.eqb (fst (fst a)) (fst (fst b)) && String.eqb (snd (fst a)) (snd (fst b)) && String.eqb (snd a) (snd b).
+
+Fixpoint strings_eqb (a b : list string) : bool :=
+  match a, b with
+  | [], [] => true
+  | x :: a', y :: b' => String.eqb x y && strings_eqb a' b'
+  | _, _ => false
+  end.
+
+(* equality of two lists of codes as sets *)
+Definition nats_subset (a b : list nat) : bool := forallb (fun x => existsb (Nat.eqb x) b) a.
+Definition nats_same_set (a b : list nat) : bool := nats_subset a b && nats_subset b a.
